@@ -27,7 +27,10 @@ PICK = {
  'C10': ['ev_transpose_col', 'ev_reshape_old', 'ev_slice_old', 'ev_sum_row', 'ev_tile_old4', 'ev_pad_old4', 'ev_flip_transpose_old', 'ev_transpose_flip_slice_old', 'out_transpose_row', 'out_invert_old'],
  'C12': ['tight_avx', 'tight_sse', 'tight_v256', 'binary2_avx', 'reduce2_avx'],
  'C13': ['th_transpose', 'th_add', 'thd_transpose'],
+ # the library's own growable buffer (nmtools_list in NMTOOLS_DISABLE_STL builds) and bounded vector: every access inside the heap block / the logical size over 2-step histories
+ 'C19': ['hist_vector_ops2', 'copy_independent', 'hist_static_vector'],
 }
+PICK_ALL_QUICK = {'C19'}   # properties whose picked harnesses run ALL their quick configurations here (operation pairs are per-query constants)
 KERNELS = {}
 HARNESSES = []
 for _pid, _names in PICK.items():
@@ -40,7 +43,7 @@ for _pid, _names in PICK.items():
         if _names is not None and _h['name'] not in _names: continue
         _h2 = copy.deepcopy(_h); _h2['name'] = _pid + '.' + _h['name']; _h2['finding_pid'] = _pid; _h2['finding_harness'] = _h['name']
         if not _h.get('quick'): continue
-        _h2['quick'] = _h['quick'][:1]; _h2['thorough'] = _h['quick']
+        _h2['quick'] = _h['quick'] if _pid in PICK_ALL_QUICK else _h['quick'][:1]; _h2['thorough'] = _h['quick']
         _h2['bounds'] = '[from %s] %s' % (_pid, _h.get('bounds', ''))
         HARNESSES.append(_h2)
 OUTSIDE = ['compositions other than the listed programs', 'device back ends', 'SIMD contexts other than those of C12']
@@ -48,8 +51,8 @@ OUTSIDE = ['compositions other than the listed programs', 'device back ends', 'S
 ASSUMPTIONS = ['every query carries CBMC pointer/bounds obligations on all translated loads/stores plus the NMTOOLS_VERIF hook obligations (see module docstring)',
                'known findings of the source properties are excluded exactly as in those properties (matched through finding_pid / finding_harness)']
 CLAIM = dict(
- text='Cross-section of %d harnesses from C03-C08, C10, C12, C13: for every accepted symbolic argument and a symbolic element index inside the reported shape (and for eval into inferred and '
+ text='Cross-section of %d harnesses from C03-C08, C10, C12, C13, C19: for every accepted symbolic argument and a symbolic element index inside the reported shape (and for eval into inferred and '
       'caller-supplied outputs, SIMD packed loads/stores and tails on exact-size buffers, the per-thread device step), the solver shows that no load or store of the encoded nmtools code leaves its '
       'object or inner array, no bounded/utl vector is indexed at or beyond its logical size, every flat offset is below size() and every axis index below its extent in base_ndarray_t::operator(), '
-      'no bounded container refuses a resize/push_back, and the evaluator never returns early on a shape mismatch.' % len(HARNESSES),
+      'no bounded container refuses a resize/push_back, and the evaluator never returns early on a shape mismatch; utl::vector (the STL-free growable buffer) and utl::static_vector stay inside their heap block / capacity over every 2-step history of push_back, resize, assign, copy and write.' % len(HARNESSES),
  note='Bounded as the source harnesses (dim <= 3/4, extents <= 3, listed compositions only). std::array / std::vector element access is covered by CBMC object bounds only (no logical-extent hook in std containers).')
